@@ -1429,12 +1429,12 @@ func compileTableExpr(context *funcContext, reg int, ex *ast.TableExpr, ec *expc
 			if field.Key != nil {
 				line = field.Key
 			}
-			if c > 511 {
-				c = 0
-			}
-			code.AddABC(OP_SETLIST, tablereg, b, c, sline(line))
-			if c == 0 {
+			if c > opMaxArgsC {
+				// extended form: C = 0 and the batch number is the next code word
+				code.AddABC(OP_SETLIST, tablereg, b, 0, sline(line))
 				code.Add(uint32(c), sline(line))
+			} else {
+				code.AddABC(OP_SETLIST, tablereg, b, c, sline(line))
 			}
 		}
 	}
@@ -1818,8 +1818,15 @@ func patchCode(context *funcContext) { // {{{
 			pc += int(context.Proto.FunctionPrototypes[opGetArgBx(inst)].NumUpvalues)
 			moven = 0
 			continue
+		case OP_SETLIST:
+			if opGetArgC(inst) == 0 {
+				// the next word is the batch number, not an instruction
+				pc++
+				moven = 0
+				continue
+			}
 		case OP_SETGLOBAL, OP_SETUPVAL, OP_EQ, OP_LT, OP_LE, OP_TEST,
-			OP_TAILCALL, OP_RETURN, OP_SETLIST, OP_CLOSE:
+			OP_TAILCALL, OP_RETURN, OP_CLOSE:
 			/* nothing to do */
 		case OP_FORPREP, OP_FORLOOP: // R(A+3) is the loop variable
 			if reg := opGetArgA(inst) + 3; reg > maxreg {
